@@ -35,16 +35,25 @@ type Engine struct {
 
 // overlayInstances is a synthetic file forcing generic instantiations (DESIGN §3.1).
 func overlayInstances() map[string][]byte {
-	ints := []string{"int", "int8", "int16", "int32", "int64", "uint", "uint8", "uint16", "uint32", "uint64"}
+	ints := []string{"int", "int8", "int16", "int32", "int64", "uint", "uint8", "uint16", "uint32", "uint64", "uintptr", "verifInt16", "verifUint32"}
 	var b strings.Builder
-	b.WriteString("//go:build verif\n\npackage narrow\n\nfunc verifInstances() {\n")
+	b.WriteString("//go:build verif\n\npackage narrow\n\ntype verifInt16 int16\ntype verifUint32 uint32\n\nfunc verifInstances() {\n")
 	for _, to := range ints {
 		for _, from := range ints {
 			fmt.Fprintf(&b, "\t_, _ = ToInteger[%s, %s](0)\n", to, from)
 		}
 	}
 	b.WriteString("}\n")
-	return map[string][]byte{"/repo/internal/narrow/verif_instances.go": []byte(b.String())}
+	var c strings.Builder
+	c.WriteString("//go:build verif\n\npackage fhirconv\n\nimport dtpb \"github.com/google/fhir/go/proto/google/fhir/proto/r4/core/datatypes_go_proto\"\n\nfunc verifInstances() {\n")
+	for _, to := range ints[:11] {
+		for _, from := range []string{"Integer", "UnsignedInt", "PositiveInt"} {
+			fmt.Fprintf(&c, "\t_, _ = ToInteger[%s, *dtpb.%s](nil)\n", to, from)
+		}
+	}
+	c.WriteString("}\n")
+	return map[string][]byte{"/repo/internal/narrow/verif_instances.go": []byte(b.String()),
+		"/repo/internal/fhirconv/verif_instances.go": []byte(c.String())}
 }
 
 func Load(repoDir, verifDir string, patterns []string) (*Engine, error) {
